@@ -1,4 +1,4 @@
-import CoxeterVerif.Lemmas.Inside3DSphero3
+import CoxeterVerif.Lemmas.Inside3DBox
 import CoxeterVerif.Lemmas.Inside3DGlue
 /-!
   # C05 — 3-D point containment equals exact membership
@@ -667,6 +667,51 @@ example (p : V3 ℝ) :
     Sphero.isInside1 0 (cornerFs.map (·.plane)) (cornerFs.map (·.pts)) (cornerFs.map (·.prism)) p = true ↔
       MemSphero cornerV 0 p :=
   sphero_inside_iff corner_spheroExact p
+
+/-! ### the structural hypotheses are decidable: checkers evaluated exactly over ℚ by the driver -/
+
+/-- **Soundness of `exactFacetsCheck`** (Spec/Inside3DCheck.lean; driver op `spec.in3.exactfacets`) -/
+theorem exactFacetsCheck_sound (V : List (V3 ℚ)) (eqs : List (V3 ℚ × ℚ)) (ws : List ℚ)
+    (F : List (Tri ℚ × V3 ℚ × ℚ)) (h : exactFacetsCheck V eqs ws F = true) :
+    ExactFacets (eqs.map planeR) (V.map CCk.v3OfRat) :=
+  exactFacetsCheck_rat_sound V eqs ws F h
+
+/-- **Soundness of `spheroExactCheck`** (driver op `spec.in3.spheroexact`) -/
+theorem spheroExactCheck_sound (V : List (V3 ℚ)) (r : ℚ) (Fs : List (FaceC ℚ)) (ws : List ℚ)
+    (F : List (Tri ℚ × V3 ℚ × ℚ)) (h : spheroExactCheck V r Fs ws F = true) :
+    SpheroExact (V.map CCk.v3OfRat) (r : ℝ) (Fs.map faceR) :=
+  spheroExactCheck_rat_sound V r Fs ws F h
+
+/-- per-run form of `cp_inside_iff_hull`: for EVERY real point -/
+theorem cp_inside_iff_hull_checked (V : List (V3 ℚ)) (eqs : List (V3 ℚ × ℚ)) (ws : List ℚ)
+    (F : List (Tri ℚ × V3 ℚ × ℚ)) (h : exactFacetsCheck V eqs ws F = true) (p : V3 ℝ) :
+    CP.isInside1 (eqs.map planeR) p = true ↔ MemHull (V.map CCk.v3OfRat) p :=
+  cp_inside_iff_hull (exactFacetsCheck_sound V eqs ws F h) p
+
+/-- **per-run form of `sphero_inside_iff`**: when the driver's exact evaluation of `spheroExactCheck`
+on the run's data answers `true`, the model accepts a real point iff its distance to the core is at
+most `r` — for EVERY real point, boundary included. -/
+theorem sphero_inside_iff_checked (V : List (V3 ℚ)) (r : ℚ) (Fs : List (FaceC ℚ)) (ws : List ℚ)
+    (F : List (Tri ℚ × V3 ℚ × ℚ)) (h : spheroExactCheck V r Fs ws F = true) (p : V3 ℝ) :
+    Sphero.isInside1 (r : ℝ) ((Fs.map faceR).map (·.plane)) ((Fs.map faceR).map (·.pts))
+        ((Fs.map faceR).map (·.prism)) p = true ↔ MemSphero (V.map CCk.v3OfRat) (r : ℝ) p :=
+  sphero_inside_iff (spheroExactCheck_sound V r Fs ws F h) p
+
+/-- **a kernel-checked instance with `r > 0`: the unit cube rounded by `1/2`.**  All hypotheses of
+`sphero_inside_iff` hold (the six extruded prisms are boxes again; `decide +kernel` on the checker). -/
+theorem cube_spheroExact :
+    SpheroExact ((boxV cube0 cube1).map CCk.v3OfRat) (((1/2 : ℚ)) : ℝ) ((boxFaces cube0 cube1 (1/2)).map faceR) :=
+  spheroExactCheck_sound _ _ _ _ _ cube_sphero_check
+
+example (p : V3 ℝ) :
+    Sphero.isInside1 (((1/2 : ℚ)) : ℝ) (((boxFaces cube0 cube1 (1/2)).map faceR).map (·.plane))
+        (((boxFaces cube0 cube1 (1/2)).map faceR).map (·.pts))
+        (((boxFaces cube0 cube1 (1/2)).map faceR).map (·.prism)) p = true ↔
+      MemSphero ((boxV cube0 cube1).map CCk.v3OfRat) (((1/2 : ℚ)) : ℝ) p :=
+  sphero_inside_iff cube_spheroExact p
+
+example : ExactFacets ((boxPlanes cube0 cube1).map planeR) ((boxV cube0 cube1).map CCk.v3OfRat) :=
+  exactFacetsCheck_sound _ _ _ _ cube_exact
 
 /-! ### soundness of the oracle's certificates -/
 
